@@ -257,6 +257,9 @@ func checkC10(tier, replay string) int {
 	ctx.Cov["thread_sync_refusals_reported_as_error"] = refused
 	ctx.Cov["rule"] = "states = (vector of user-visible phases of N other OS threads at the moment of the load: spinning, in nanosleep, blocked in read, blocked in futex, spawning short-lived threads) x flags {0,tsync,log,tsync|log} x loader on main / non-main thread; every vector for N<=2 (quick) / N<=3 (thorough) and homogeneous + mixed vectors for N=8 (and 64 thorough); each is run once on the real kernel through the real LoadFilter; after an atomic 'load returned' flag every thread (including three born afterwards) probes getppid and reads its own /proc status, and /proc/self/task is scanned; plus all 32 single-bit flag words observed at the syscall seam and, for the defined bits, in strace's decoding of seccomp(2)"
 	ctx.Assumptions = []string{"the interleaving of seccomp(2) with other threads inside the kernel cannot be scheduled from user space; one run per phase vector", "phase of blocked threads is confirmed through /proc/<tid>/syscall immediately before the load is released"}
+	if replay != "" {
+		return finishReplay(ctx)
+	}
 	return ctx.Finish()
 }
 
